@@ -68,7 +68,7 @@ impl GenOpts {
             allow_names: true,
             allow_dddmp: false,
             threads: vec![1],
-            zbdd_order: false,
+            zbdd_order: true,
             io_mode: 0,
             ample_only: false,
             nat_ops: false,
